@@ -240,9 +240,12 @@ def gen_no_counterpart(rng):
         seq = rng.choice(["*", "ACGT", "AC-GT", "12", "a*b"])
         if rng.random() < 0.4:
             bad, seq = "ok1", rng.choice(["AC-GT", "12", "a*b", "A,C"])
-        lines = ["S\t%s\t%d\t%s" % (bad, len(seq) if seq != "*" else 9, seq), "S\tz\t8\t*"]
+        slen = len(seq) if seq != "*" else 9
+        lines = ["S\t%s\t%d\t%s" % (bad, slen, seq), "S\tz\t8\t*"]
         if rng.random() < 0.6:
-            lines.append("E\te1\t%s+\tz-\t0\t3\t5\t8$\t3M" % bad)
+            # (a dovetail: the end of the one segment on the end of the other, reversed)
+            lines.append("E\te1\t%s+\tz-\t%d\t%d$\t5\t8$\t%s" % (bad, max(slen - 3, 0), slen,
+                                                                   "3M" if slen >= 3 else "%dM%dI" % (slen, 3 - slen)))
         if rng.random() < 0.3:
             lines.append("O\tpth\t%s+ z-" % bad)
         return "gfa2", lines
@@ -614,15 +617,33 @@ def run_no_counterpart(case, ctx):
     ctx.count("no_counterpart_conversions")
     if not c.ok:
         ctx.count("no_counterpart_refused")
+    else:
+        out = [l for l in S.split_doc(c.value) if l]
+        for l in out:
+            vd = S.recognise_line(l, target)
+            if vd[0] == S.INVALID:
+                ctx.violation("converted-text-invalid/no-counterpart/%s" % l.split("\t")[0], "to_%s_s of %r (level %d) gives %r (%s)"
+                              % (target, lines, vlevel, l, vd[1]))
+                return
+        ctx.sample({"version": v, "lines": lines, "kind": "no-counterpart", "converted": out})
+    # the conversion to a Gfa object: refused, or a Gfa whose text is a valid document of the target
+    # version (a record dropped on its own would leave the lines which refer to it dangling)
+    o = call(ctx, "Gfa.to_%s" % target, g.to_gfa1 if target == "gfa1" else g.to_gfa2)
+    ctx.count("no_counterpart_object_conversions")
+    if not o.ok:
+        ctx.count("no_counterpart_refused")
         return
-    out = [l for l in S.split_doc(c.value) if l]
-    for l in out:
+    text = [O.safe_str(l) for l in o.value.lines]
+    if any("GFAPY_virtual_line" in l for l in text):
+        ctx.violation("converted-graph-open/no-counterpart", "to_%s of %r (level %d) gives a Gfa with placeholders: %r"
+                      % (target, lines, vlevel, text))
+        return
+    for l in text:
         vd = S.recognise_line(l, target)
         if vd[0] == S.INVALID:
-            ctx.violation("converted-text-invalid/no-counterpart/%s" % l.split("\t")[0], "to_%s_s of %r (level %d) gives %r (%s)"
+            ctx.violation("converted-text-invalid/no-counterpart-object/%s" % l.split("\t")[0], "to_%s of %r (level %d) holds %r (%s)"
                           % (target, lines, vlevel, l, vd[1]))
             return
-    ctx.sample({"version": v, "lines": lines, "kind": "no-counterpart", "converted": out})
 
 
 def run(case, ctx):
